@@ -16,7 +16,6 @@ import (
 	"os"
 	"sort"
 	"strings"
-	"time"
 
 	"golang.org/x/tools/go/ssa"
 )
@@ -33,8 +32,9 @@ type Extractor struct {
 	BenignWriteTags map[string]bool
 	caseBudget      int
 	caseAssume      []Assumption   // standing assumptions of EquivByCasesUnder
-	caseDeadline    time.Time      // wall-clock bound of one EquivByCases call
+	caseWorkLimit int64 // bound of the running case analysis on the work clock
 	caseNotNaN      map[AtomID]int // quantities that are not NaN in the case being analysed
+	idivDepth       int            // recursion guard of evalIdivCmp
 	inSign          bool
 	inUnit          bool
 	ctxDepth        int
@@ -132,6 +132,7 @@ func (fc *FC) errf(format string, args ...interface{}) {
 
 // EvalCond decides a condition under assumptions (Unknown when it cannot).
 func (x *Extractor) EvalCond(c *RF, assume []Assumption) Tri {
+	workUnits += 4
 	s := x.S
 	assume = expandAssumptions(assume)
 	assume = x.unitPropagate(assume)
@@ -281,7 +282,10 @@ func (x *Extractor) EvalCond(c *RF, assume []Assumption) Tri {
 			if t := x.evalByRegions(at.Name, d, assume, sub); t != Unknown {
 				return t
 			}
-			return x.evalBySignCached(at, d, assume)
+			if t := x.evalBySignCached(at, d, assume); t != Unknown {
+				return t
+			}
+			return x.evalIdivCmp(at.Name, d, assume)
 		}
 		sg := cst.Sign()
 		var res bool
@@ -304,6 +308,130 @@ func (x *Extractor) EvalCond(c *RF, assume []Assumption) Tri {
 		return False
 	}
 	return Unknown
+}
+
+// idivLinear: a comparison `d name 0` in which d = ±idiv(x0, c) + rest for a
+// positive whole constant c, integer x0 >= 0 (decided from the assumptions) and
+// integer rest, written without the division: with q = x0/c the unique integer
+// such that c·q <= x0 <= c·q + c−1,
+//
+//	q + r <  0  ⇔  x0 + c·r < 0          q + r <= 0  ⇔  x0 + c·r − (c−1) <= 0
+//	r − q <  0  ⇔  c·r + c − x0 <= 0     r − q <= 0  ⇔  c·r − x0 <= 0
+//
+// Returns the equivalent comparison, or nil.
+func (x *Extractor) idivLinear(name string, d *RF, assume []Assumption) *RF {
+	s := x.S
+	if name != "cmp<" && name != "cmp<=" {
+		return nil
+	}
+	if c, ok := d.D.isConst(); !ok || c.Cmp(big.NewRat(1, 1)) != 0 {
+		return nil
+	}
+	for _, t := range d.N.terms {
+		if len(t.vars) != 1 || t.exps[0] != 1 {
+			continue
+		}
+		at := s.atoms[t.vars[0]]
+		if at.Name != "idiv" || len(at.Args) != 2 {
+			continue
+		}
+		sgn := 0
+		switch {
+		case t.coef.Cmp(big.NewRat(1, 1)) == 0:
+			sgn = 1
+		case t.coef.Cmp(big.NewRat(-1, 1)) == 0:
+			sgn = -1
+		default:
+			continue
+		}
+		c, ok := at.Args[1].IsConst()
+		if !ok || !c.IsInt() || c.Sign() <= 0 {
+			continue
+		}
+		x0 := at.Args[0]
+		q := s.atomRF(at.ID)
+		rest := d.Sub(q.Mul(s.Int(int64(sgn))))
+		if !s.Integral(x0) || !s.Integral(rest) || len(FindAtomID(rest, at.ID)) > 0 {
+			continue
+		}
+		// x0 >= 0 (Go's / truncates: the floor characterisation needs it)
+		x.idivDepth++
+		nonneg := x.EvalCond(s.Cmp("<", x0, s.Int(0)), assume) == False
+		x.idivDepth--
+		if !nonneg {
+			continue
+		}
+		cr := s.Const(c).Mul(rest)
+		switch {
+		case sgn == 1 && name == "cmp<":
+			return s.Cmp("<", x0.Add(cr), s.Int(0))
+		case sgn == 1 && name == "cmp<=":
+			return s.Cmp("<=", x0.Add(cr).Sub(s.Const(c)).Add(s.Int(1)), s.Int(0))
+		case sgn == -1 && name == "cmp<":
+			return s.Cmp("<=", cr.Add(s.Const(c)).Sub(x0), s.Int(0))
+		case sgn == -1 && name == "cmp<=":
+			return s.Cmp("<=", cr.Sub(x0), s.Int(0))
+		}
+	}
+	return nil
+}
+
+// evalIdivCmp: a comparison involving an integer division by a constant,
+// decided through its division-free equivalent (idivLinear); assumed
+// comparisons of that kind are likewise replaced by their equivalents first.
+func (x *Extractor) evalIdivCmp(name string, d *RF, assume []Assumption) Tri {
+	if x.idivDepth > 0 {
+		return Unknown
+	}
+	has := func(r *RF) bool {
+		for _, a := range r.Atoms(false) {
+			if a.Name == "idiv" {
+				return true
+			}
+		}
+		return false
+	}
+	changed := false
+	as2 := append([]Assumption{}, assume...)
+	for _, a := range assume {
+		if a.Cond == nil {
+			continue
+		}
+		c, truth := a.Cond, a.True
+		for {
+			ca := c.SingleAtom()
+			if ca != nil && ca.Name == "not" {
+				c, truth = ca.Args[0], !truth
+				continue
+			}
+			break
+		}
+		ca := c.SingleAtom()
+		if ca == nil || !isCmpName(ca.Name) {
+			continue
+		}
+		da := ca.Args[0].Sub(ca.Args[1])
+		if !has(da) {
+			continue
+		}
+		if eq := x.idivLinear(ca.Name, da, assume); eq != nil {
+			as2 = append(as2, Assumption{Cond: eq, True: truth})
+			changed = true
+		}
+	}
+	q := x.S.MakeFn(name, d, x.S.Int(0))
+	if has(d) {
+		if eq := x.idivLinear(name, d, assume); eq != nil {
+			q = eq
+			changed = true
+		}
+	}
+	if !changed {
+		return Unknown
+	}
+	x.idivDepth++
+	defer func() { x.idivDepth-- }()
+	return x.EvalCond(q, as2)
 }
 
 // cmpTruth: truth of the comparison `name` of (l, r) when sign(l-r) = sg
